@@ -34,6 +34,8 @@ THEOREMS = [("Arc.SqlAst.Props", t) for t in [
     "C14_quoted_comment_marker_refuted", "C14_quoted_comment_marker_string_position_refuted", "C14_query_function_refuted", "C14_header_cte_refuted",
     "C14_header_cte_slow_path_refuted", "C14_header_window_clause_refuted", "C14_lateral_string_injection_refuted", "C14_case_dedup_refuted",
     "C14_backtick_in_quoted_alias_refuted", "C14_estring_escaped_quote_refuted",
+    "C14_fast_path_digit_name_refuted", "C14_placeholder_in_literal_refuted", "C14_from_mask_word_refuted",
+    "C14_placeholder_identifier_path_refuted",
 ]]
 TIE_NAME = ("C14 correspondence (QueryHandler.executeQuery via app.Test: ValidateSQLRequest, header checks, SHOW gate, "
             "checkQueryPermissions/extractTableReferences, getTransformedSQLForParallel/convertSQLToStoragePaths* "
@@ -73,6 +75,10 @@ WITNESSES = [
     ("case-insensitive-dedup", "SELECT * FROM cpu a JOIN CPU b ON a.id = b.id", "db1", ["db1/CPU", "db1/cpu"]),
     ("backtick-inside-quoted-identifier", 'SELECT 1 AS "a`b", p.v FROM db1.cpu c, "%s" p' % P2, "", ["db1/cpu", "db2/secret"]),
     ("estring-escaped-quote-then-quote", "SELECT E'a\\'' AS a, p.v FROM \"%s\" p WHERE 'x' = 'x'" % P2, "", ["db2/secret"]),
+    ("fast-path-name-not-seen-by-check", "SELECT * FROM 2024x", "db2", ["db2/2024x"]),
+    ("placeholder-text-in-request", "SELECT '__STR_1__' AS a, ' , p.tag FROM \"%s\" p -- ' AS b" % P, "", ["db2/secret"]),
+    ("placeholder-text-in-request", "SELECT p.tag, extract(year FROM DATE '2020-01-01') AS y __FROM_MASK_0__ \"%s\" p" % P, "", ["db2/secret"]),
+    ("placeholder-text-in-request", "SELECT t.tag FROM db1.\"__STR_1__\" t WHERE t.tag <> ' || $$../db2/secret$$ || '", "", ["db2/secret"]),
 ]
 # GET /api/v1/query/:measurement?database=..&where=..  (where, database, measurement)
 MEASUREMENT_CASES = [
@@ -80,6 +86,9 @@ MEASUREMENT_CASES = [
     ("EXISTS (SELECT 1 FROM db2.cpu s JOIN db2.secret t USING (id))", "db1", "mem"), ("id >= 0", "db1", "cpu"), ("host = 'h1' AND v IS NOT NULL", "db1", "mem"),
     ("id >= (SELECT min(id) FROM db1.mem)", "db1", "cpu"), ("id >= 0", "db2", "secret"), ("id IN (SELECT id FROM \"%s\")" % P2, "db1", "cpu"),
     ("id >= (SELECT min(id) FROM secret)", "db1", "cpu"),
+    # with an x-arc-database header (4th field): the endpoint transforms WITHOUT a header database
+    ("id >= (SELECT min(id) FROM mem)", "db1", "cpu", "db1"), ("id >= (SELECT min(id) FROM default.mem)", "db1", "cpu", "db1"),
+    ("id >= 0", "db1", "cpu", "db2"), ("id >= (SELECT min(id) FROM db1.mem)", "db1", "cpu", "db2"),
 ]
 
 # statements the gate must refuse (or check): each would read db2 if a guard disappeared
@@ -107,6 +116,17 @@ GUARD_PROBES = [
     ("SELECT E'a\\'' AS a, p.v FROM db1.cpu c, \"%s\" p WHERE 'x' = 'x'" % P2, ""),
     ("SELECT e'\\\\', p.v FROM \"%s\" p WHERE p.tag <> 'x'" % P2, ""),
     ('SELECT 1 AS `a"b`, p.v FROM db1.cpu c, "%s" p' % P2, ""), ('SELECT 1 AS "a`b`c", p.v FROM db1.cpu c, "%s" p' % P2, ""),
+    # names the permission check's patterns cannot see, on the header fast path and elsewhere
+    ("SELECT * FROM 2024x", "db2"), ("select id, tag from\t2024x where id >= 0", "db2"), ("SELECT * FROM 2024x LIMIT 5", "db2"),
+    ("SELECT a.id FROM cpu a JOIN 2024x b ON a.id = b.id", "db2"), ("SELECT * FROM db2.2024x", ""), ('SELECT * FROM "2024x"', "db2"),
+    # request text of placeholder shape (the transform restores placeholders by text replacement after the checks)
+    ("SELECT '__STR_1__' AS a, ' , p.tag FROM \"%s\" p -- ' AS b" % P, ""), ("SELECT '__STR_1__' AS a, ' , p.tag FROM \"%s\" p -- ' AS b" % P, "db1"),
+    ("SELECT $$__STR_1__$$ AS a, ' , p.tag FROM \"%s\" p -- ' AS b" % P, ""), ("SELECT \"__STR_1__\" AS a, ' , p.tag FROM \"%s\" p -- ' AS b FROM db1.cpu" % P, ""),
+    ("SELECT p.tag, extract(year FROM DATE '2020-01-01') AS y __FROM_MASK_0__ \"%s\" p" % P, ""),
+    ("SELECT p.tag, substring('abc' FROM 2) AS y __FROM_MASK_0__ db1.cpu c, \"%s\" p" % P, ""),
+    ("SELECT t.tag FROM db1.\"__STR_1__\" t WHERE t.tag <> ' || $$../db2/secret$$ || '", ""),
+    ("SELECT t.tag FROM db1.cpu c JOIN db1.\"__STR_1__\" t ON true WHERE t.tag <> ' || $$../db2/secret$$ || '", ""),
+    ("SELECT 'a'IDENT_1__ AS x, \"%s\".tag FROM db1.cpu" % P, ""),
     ("COPY (SELECT 1) TO '%s/x'" % L.ROOT_TOKEN, ""), ("ATTACH '%s/x.db'" % L.ROOT_TOKEN, ""), ("SET enable_external_access = true", ""),
 ]
 
@@ -129,7 +149,11 @@ def signature(case, cl, flags, out):
     sql = case["sql"]
     rt = route_of(sql)
     if case.get("ep") == "measurement":
-        return "query-measurement-where-subquery"
+        return "query-measurement-header-override" if case.get("xhdr") and L.MEASUREMENT_FIXED else "query-measurement-where-subquery"
+    if not (L.FIXBITS & 1024) and re.search(r"__STR_|__IDENT_|__FROM_MASK_", sql):
+        return "placeholder-text-in-request"
+    if not (L.FIXBITS & 512) and case["hdr"] and re.search(r"(?i)\bfrom[ \t\n]+[0-9]", sql):
+        return "fast-path-name-not-seen-by-check"
     if any(a.startswith("__STR_") for _, a in cl["checked"]):
         return "placeholder-as-table-name"
     if not (L.FIXBITS & 256) and re.search(r'"[^"`]*`[^"]*"', sql) and not flags["pathlike_free"]:
@@ -281,12 +305,22 @@ def build_cases(rng, tier):
         cases.append(L.mk_case(mutate(rng, g["sql"]), g["hdr"]))
         meta.append({"src": "mutated", "labels": g["labels"], "disguises": g["disguises"], "items": []})
     # a sample through the other endpoints that share the gate: only accept/reject, checked set and canaries
-    for where, db, meas in MEASUREMENT_CASES:
+    for mc in MEASUREMENT_CASES:
+        where, db, meas = mc[:3]
         assembled = "SELECT * FROM %s.%s WHERE %s ORDER BY id LIMIT 100 OFFSET 0" % (db, meas, where)
         cases.append(L.mk_case(assembled, "", allow=["*"]))
         meta.append({"src": "measurement-twin", "labels": [], "disguises": [], "items": []})
-        cases.append(dict(L.mk_case(where, db, allow=["db1"]), ep="measurement", meas=meas))
+        cases.append(dict(L.mk_case(where, db, allow=["db1"]), ep="measurement", meas=meas, xhdr=mc[3] if len(mc) > 3 else ""))
         meta.append({"src": "endpoint:measurement", "labels": [], "disguises": [], "items": [], "twin": len(cases) - 2})
+    # token-boundary probes: /api/v1/query (getTransformedSQLForParallel) and /api/v1/query/arrow (getTransformedSQL ->
+    # convertSQLToStoragePathsWithHeaderDB), both with the executed text and the measured read set
+    for sql, hdr, arrow in L.boundary_probes():
+        cases.append(L.mk_case(sql, hdr))
+        meta.append({"src": "boundary", "labels": [], "disguises": [], "items": []})
+        if not arrow:
+            continue
+        cases.append(dict(L.mk_case(sql, hdr), ep="arrow"))
+        meta.append({"src": "endpoint:arrow", "labels": [], "disguises": [], "items": [], "twin": len(cases) - 2, "boundary": True})
     nq = len(cases)
     first_gen = (len(WITNESSES) + len(GUARD_PROBES) + len(L.QUALIFIED_EXCLUSION_PROBES) + len(L.cache_pairs())
                  + len(L.cte_quoting_matrix()) + len(corpus_cases()))
@@ -379,6 +413,8 @@ def run(res, tier, seed):
             refused = o.get("status") in (400, 403) and not unsupported
             same = refused == (outs[t].get("status") in (400, 403)) and \
                    ((o.get("status") == 400 and not unsupported) == (outs[t].get("status") == 400)) and cl["checked"] == cls[t]["checked"]
+            if m.get("boundary") and o.get("executed") is not None and outs[t].get("executed") is not None and o["executed"] != outs[t]["executed"]:
+                same = False          # the two header fast paths must cut the name at the same byte
             if not same:
                 parity.append(i)
             fl.update(flags[t])
